@@ -22,6 +22,7 @@ type MonC11 struct {
 	baseMon
 	closeStep map[string]int // cid -> step of the close
 	closeT    map[string]int
+	released  map[string]int // cid -> time at which its connection-event subscription was released
 	hadWork   bool
 }
 
@@ -48,7 +49,22 @@ func (m *MonC11) OnLog(w *World, e *LogEntry) {
 				m.hadWork = true
 			}
 		}
+	case "mq_unsub":
+		// the disposal of a connection releases its connection-event subscription:
+		// from here on the gateway has processed the close, whatever the step
+		if strings.HasPrefix(e.Subject, "conn.") {
+			if m.released == nil {
+				m.released = map[string]int{}
+			}
+			m.released[e.Subject[5:]] = e.T
+		}
 	case "mq_req":
+		if t, ok := m.released[e.CID]; ok && e.CID != "" {
+			if strings.HasPrefix(e.Subject, "access.") || strings.HasPrefix(e.Subject, "call.") || strings.HasPrefix(e.Subject, "auth.") {
+				m.viols = append(m.viols, Violation{Property: "C11", Class: "request_after_release", Step: e.Step, T: e.T, Conn: w.ActorOf(e.CID),
+					Message: fmt.Sprintf("%s was requested (t=%d) on behalf of connection a%d after the gateway had disposed of it (its connection-event subscription was released at t=%d)", e.Subject, e.T, w.ActorOf(e.CID), t)})
+			}
+		}
 		// (in the step of the close itself too, when the close is that step's only
 		// stimulus: whatever is requested then is requested by the disposal)
 		sameStep := false
@@ -306,6 +322,72 @@ func RunFaultCase(rt *rapid.T, env *Env, prop *SimProp, faults func(w *World) []
 			}
 			cj()
 			env.Stats.Classes["close_races_answer"]++
+			judge(vw, vw.SymScript)
+		}
+	}
+	// held-worker variants for the close of a connection (C11): the connection's
+	// worker is parked by an auth request of its own, the connection closes, one
+	// service-side op of the base history (an answer to one of its requests, a
+	// token event, a token reset, a system reset, an event) is delivered, and
+	// then the worker is released: the op's work for the connection is accepted
+	// before the disposal runs and executed after it
+	for _, fault := range fs {
+		if prop.ID != "C11" || len(fault) != 1 || fault[0].K != "close" || len(cfg.Resources) == 0 {
+			continue
+		}
+		x := fault[0].C
+		conns := 0
+		for k := 0; k < len(base); k++ {
+			b := base[k]
+			if b.K == "connect" {
+				conns++
+			}
+			if conns <= x {
+				continue
+			}
+			ok := false
+			switch b.K {
+			case "ans":
+				ok = b.A == 0 || actorDec(b.A) == x
+			case "tokreset", "sysreset", "reaccess", "mut", "custom", "delete", "qevent":
+				ok = true
+			case "token":
+				ok = b.C == x
+			}
+			if !ok {
+				continue
+			}
+			park := Op{K: "creq", C: x, ID: uint64(810000 + k), M: "auth." + cfg.Resources[0].Name + ".login"}
+			group := []Op{park, fault[0], b}
+			script := append([]Op(nil), base[:k]...)
+			if b.K == "tokreset" {
+				// (a token reset only concerns connections with a token id it names:
+				// the connection is given one of them first)
+				var tr struct {
+					Tids []string `json:"tids"`
+				}
+				if json.Unmarshal([]byte(b.P), &tr) == nil && len(tr.Tids) > 0 {
+					script = append(script, Op{K: "token", C: x, P: `{"u":2}`, S: tr.Tids[len(tr.Tids)-1]})
+				}
+			}
+			script = append(script, Op{K: "par", O: "held", Par: group})
+			script = append(script, base[k+1:]...)
+			vw, err := NewWorld(cfg)
+			if err != nil {
+				env.Inconclusive("NewWorld: " + err.Error())
+				return
+			}
+			vw.Monitors = prop.Monitors()
+			cj := openJournal(env, prop, p, cfg, vw)
+			vw.Settle()
+			for _, op := range script {
+				vw.Exec(op)
+			}
+			cj()
+			if vw.HeldWorkers > 0 {
+				env.Stats.Classes["work_accepted_while_disposal_queued"]++
+				env.Stats.Classes["work_accepted_while_disposal_queued:"+b.K]++
+			}
 			judge(vw, vw.SymScript)
 		}
 	}
